@@ -157,13 +157,14 @@ fn seed_bytes() -> &'static [u8] {
 }
 
 /// How the engine prints a sheet name in front of `!` (measured on a fresh workbook that has the sheet).
-fn printed(name: &str) -> String {
+pub fn printed(name: &str) -> String {
     static CACHE: OnceLock<std::sync::Mutex<BTreeMap<String, String>>> = OnceLock::new();
     let cache = CACHE.get_or_init(|| std::sync::Mutex::new(BTreeMap::new()));
     if let Some(p) = cache.lock().unwrap().get(name) {
         return p.clone();
     }
     let mut m = Model::new_empty("p", "en", "UTC", "en").expect("new_empty");
+    let _ = m.rename_sheet_by_index(0, "ZzHost");
     let p = match m.add_sheet(name) {
         Ok(()) => {
             let _ = m.set_user_input(0, 1, 1, format!("={}!B7", quoted(name)));
@@ -177,7 +178,7 @@ fn printed(name: &str) -> String {
 }
 
 /// Replaces `old!` by `new!` where `old` stands as a whole sheet qualifier.
-fn replace_qualifier(text: &str, old: &str, new: &str) -> String {
+pub fn replace_qualifier(text: &str, old: &str, new: &str) -> String {
     let pat = format!("{}!", old);
     let mut out = String::new();
     let mut rest = text;
